@@ -216,7 +216,7 @@ PROTO4('vtmf_mask', 'h_w_mask', 'masking proof presented for another message: ac
 PROTO4('vtmf_decrypt', 'h_w_decrypt', 'decryption share computed with a key other than the published one: accepted only if c == 0 (mod q)', 'both keys, replacement key, c_1, coins, digests')
 
 # ------------------------------------------------------------------ C01
-H(id='C01_cs_xor', property='C01_unregistered', src='C01_card.cc', entry='h_cs_xor', tu=['SchindelhauerTMCG.cc', 'TMCG_CardSecret.cc', 'TMCG_PublicKey.cc', 'TMCG_Card.cc'], unwind=6, unwindset={'_ZNSt11char_traitsIcE6lengthEPKc.0': 64, '_ZNSs6appendEPKcm.1': 64}, timeout=1500, replace=PROTO_REPLACE,
+H(id='C01_cs_xor', property='C01', src='C01_card.cc', entry='h_cs_xor', tu=['SchindelhauerTMCG.cc', 'TMCG_CardSecret.cc', 'TMCG_PublicKey.cc', 'TMCG_Card.cc'], unwind=6, unwindset={'_ZNSt11char_traitsIcE6lengthEPKc.0': 64, '_ZNSs6appendEPKcm.1': 64}, timeout=600, replace=PROTO_REPLACE,
   defines={'VF_BITS': 12, 'H_MAXDRAWS': 40, 'H_DBITS': 4, 'MINISTL_STREAM_CAP': 128}, config={'TMCG_MAX_FPOWM_T': 8, 'TMCG_MAX_PLAYERS': 4, 'TMCG_MAX_TYPEBITS': 3},
   desc='quadratic-residue encoding: a fresh card secret preserves the type (bit columns XOR to 0) for k players', symbolic='all random bits of the other players (player count and masking player enumerated by slices)',
   bounds='k = 2,3,4 players (one query each), w = 2 type bits; moduli set to 1 so that masking values are concrete (the bit logic does not depend on them)', assumptions=PROTO_ASSUME, slices=[{'H_KPL': k, 'H_IDX': i} for k in (2, 3, 4) for i in range(k)], backend='kissat', memgb=8)
@@ -256,7 +256,7 @@ PROTO('C17_unregistered', 'flip_honest', 'C17_flip.cc', 'h_flip_honest', 'two-pa
       groups=[GRP(7, 3, 2, 2)], groupsT=[GRP(11, 5, 3, 2), GRP(7, 3, 2, 2)], timeout=1500, memgb=14)
 PROTO('C17', 'flip_adversary', 'C17_flip.cc', 'h_flip_adversary', 'two-party flip against an arbitrary peer: acceptance => opening matches earlier commitment, output = own + peer share; own share revealed only after a valid commitment was read',
       'own coins, peer commitment in [-1,p+2), peer openings in [-2q,2q], number of tokens delivered', tu=EDCF_TU, groups=[GRP(11, 5, 3, 2)], groupsT=[GRP(11, 5, 3, 2), GRP(7, 3, 2, 2), GRP(23, 11, 2, 2)], timeout=1500)
-PROTO('C01_unregistered', 'vtmf_open', 'C01_card.cc', 'h_vtmf_open', 'discrete-log encoding, 2 players: open card, masked by A then B, opens to its type with both shares; not without B unless c_1^x_B = 1',
+PROTO('C01', 'vtmf_open', 'C01_card.cc', 'h_vtmf_open', 'discrete-log encoding, 2 players: open card, masked by A then B, opens to its type with both shares; not without B unless c_1^x_B = 1',
       'type, both keys, both masking exponents, all proof coins, digests, timing flag', tu=['SchindelhauerTMCG.cc', 'BarnettSmartVTMF_dlog.cc', 'VTMF_Card.cc', 'VTMF_CardSecret.cc', 'TMCG_CardSecret.cc', 'TMCG_Card.cc', 'TMCG_PublicKey.cc', 'mpz_spowm.cc', 'mpz_sprime.cc'],
       groups=[dict(GRP(7, 3, 2, 2), H_TB=1)], groupsT=[dict(GRP(7, 3, 2, 2), H_TB=1), dict(GRP(11, 5, 3, 2), H_TB=2)], timeout=3000, in_tiers=('thorough',))
 HARNESSES[-1]['config'] = {'TMCG_MAX_FPOWM_T': 8, 'TMCG_MAX_PLAYERS': 4, 'TMCG_MAX_TYPEBITS': 3}
